@@ -18,15 +18,39 @@ package net
 //@   trusted grpc-ecosystem recovery middleware: turns a panic of the handler into a gRPC error
 //@   modifies nothing
 //@   ensures isRecoveryInterceptor(r)
+// chainRecovers(c): c is an interceptor chain that contains a recovery interceptor; optRecoversUnary / optRecoversStream(o):
+// o is the server option that installs such a chain; isStreamCap(o): o is the server option that caps concurrent streams.
+//@ ghost chainRecovers(ref) bool
+//@ ghost optRecoversUnary(ref) bool
+//@ ghost optRecoversStream(ref) bool
+//@ ghost isStreamCap(ref) bool
 //@ extern github.com/grpc-ecosystem/go-grpc-middleware.ChainUnaryServer(interceptors) (r)
 //@   trusted chains the interceptors in the order given
 //@   modifies nothing
+//@   ensures (exists k int :: 0 <= k && k < len(interceptors) && isRecoveryInterceptor(interceptors[k])) ==> chainRecovers(r)
 //@ extern github.com/grpc-ecosystem/go-grpc-middleware.ChainStreamServer(interceptors) (r)
 //@   trusted chains the interceptors in the order given
 //@   modifies nothing
+//@   ensures (exists k int :: 0 <= k && k < len(interceptors) && isRecoveryInterceptor(interceptors[k])) ==> chainRecovers(r)
+//@ extern google.golang.org/grpc.UnaryInterceptor(i) (o)
+//@   trusted grpc: the server option that installs i as the unary interceptor
+//@   modifies nothing
+//@   ensures chainRecovers(i) ==> optRecoversUnary(o)
+//@ extern google.golang.org/grpc.StreamInterceptor(i) (o)
+//@   trusted grpc: the server option that installs i as the stream interceptor
+//@   modifies nothing
+//@   ensures chainRecovers(i) ==> optRecoversStream(o)
+//@ extern google.golang.org/grpc.MaxConcurrentStreams(n) (o)
+//@   trusted grpc: the server option that caps the number of concurrent streams of one transport at n
+//@   modifies nothing
+//@   ensures isStreamCap(o)
 
 //@ func NewGRPCListenerForPrivate(ctx, bindingAddr, s, opts) (l, err)
 //@   props C14 C12
 //@   call ChainUnaryServer#0: assert [C14:panics-of-unary-handlers-on-the-peer-facing-server-are-recovered] exists k int :: 0 <= k && k < len(arg0) && isRecoveryInterceptor(arg0[k])
 //@   call ChainStreamServer#0: assert [C14:panics-of-streaming-handlers-on-the-peer-facing-server-are-recovered] exists k int :: 0 <= k && k < len(arg0) && isRecoveryInterceptor(arg0[k])
 //@   call MaxConcurrentStreams#0: assert [C12:concurrent-streams-per-peer-connection-are-capped] 0 < arg0 && arg0 <= 1024
+// ... and the options reach the server that is started: the list handed to grpc.NewServer contains them
+//@   call NewServer#0: assert [C14:the-server-that-is-started-has-the-unary-recovery-chain] exists k int :: 0 <= k && k < len(arg0) && optRecoversUnary(arg0[k])
+//@   call NewServer#0: assert [C14:the-server-that-is-started-has-the-stream-recovery-chain] exists k int :: 0 <= k && k < len(arg0) && optRecoversStream(arg0[k])
+//@   call NewServer#0: assert [C12:the-server-that-is-started-has-the-stream-cap] exists k int :: 0 <= k && k < len(arg0) && isStreamCap(arg0[k])
